@@ -34,6 +34,7 @@ Leafs ==
                            T("set", "y", X, ""), T("setg", "x", ELit(<<"g">>), ""), T("include", "inc", NoE, ""), T("include", "inc2", NoE, "")}
     [] Theme = "capture" -> {T("text", "t2", NoE, ""), T("print", "", X, ""), T("print", "", Dv, ""), T("print", "", Iv, ""),
                              T("include", "incd", NoE, ""), T("set", "x", Dv, "")}
+    [] Theme = "global" -> {T("text", "t1", NoE, ""), T("print", "", X, ""), T("print", "", Iv, ""), T("setg", "x", Iv, ""), T("set", "x", Iv, "")}
     [] Theme = "escape" -> {T("text", "t2", NoE, ""), T("print", "", Dv, ""), T("print", "", ELit(<<"'", "<">>), ""),
                             T("print", "", ECat(Dv, ELit(<<"&">>)), ""), T("print", "", EFilt("upper", Dv), ""),
                             T("print", "", EFilt("safe", Dv), ""), T("print", "", EFilt("upper", EFilt("safe", Dv)), ""),
@@ -48,10 +49,12 @@ ForHeads ==
   CASE Theme = "flow" -> {T("for", "i", EVar("xs"), ""), T("for", "i", EVar("es"), ""), T("for", "i", EVar("s"), ""), T("for", "x", EVar("xs"), ""), T("for", "i", EVar("u"), "")}
     [] Theme = "scope" -> {T("for", "x", EVar("xs"), ""), T("for", "i", EVar("xs"), "")}
     [] Theme = "capture" -> {T("for", "i", EVar("xs"), "")}
+    [] Theme = "global" -> {T("for", "i", EVar("xs"), "")}
     [] Theme = "escape" -> {T("for", "i", Dv, ""), T("forkv", "i", EVar("m"), "x")}
 CapHeads ==
   CASE Theme = "capture" -> {T("setblock", "x", NoE, ""), T("setblock", "x", NoE, "upper"), T("setgblock", "x", NoE, ""), T("filter", "upper", NoE, ""), T("filter", "safe", NoE, "")}
     [] Theme = "escape" -> {T("setblock", "x", NoE, ""), T("setblock", "x", NoE, "upper"), T("filter", "upper", NoE, ""), T("filter", "wrap_safe", NoE, "")}
+    [] Theme = "global" -> {T("setgblock", "x", NoE, ""), T("setblock", "x", NoE, ""), T("setgblock", "x", NoE, "upper")}
     [] OTHER -> {}
 HasElif == Theme = "flow"
 HasBrk == Theme \in {"flow", "capture"}
@@ -63,7 +66,7 @@ Base == [d |-> DStr, xs |-> ArrV(<<IntV(1), IntV(2)>>), es |-> ArrV(<<>>), s |->
          m |-> MapV(<<"a">>, <<StrV(<<"\"">>, FALSE)>>)]
 Env(ctx, gctx, ae) == [ctx |-> ctx, gctx |-> gctx, ae |-> ae, esc |-> "html", lib |-> Lib, texts |-> Texts]
 Envs ==
-  CASE Theme \in {"flow", "capture"} -> << Env(Base, EmptyF, FALSE), Env(("x" :> IntV(0)) @@ Base, ("y" :> IntV(5)), FALSE) >>
+  CASE Theme \in {"flow", "capture", "global"} -> << Env(Base, EmptyF, FALSE), Env(("x" :> IntV(0)) @@ Base, ("y" :> IntV(5)), FALSE) >>
     [] Theme = "scope" -> << Env(Base, EmptyF, FALSE),
                              Env(("x" :> StrV(<<"c">>, FALSE)) @@ Base, ("x" :> StrV(<<"G">>, FALSE)) @@ ("y" :> StrV(<<"H">>, FALSE)), FALSE),
                              Env(Base, ("x" :> StrV(<<"G">>, FALSE)), FALSE),
